@@ -93,6 +93,10 @@ class C19(Prop):
             o1 = gen.rand_object(rng) + [("Boom", 0)]
             o2 = gen.rand_object(rng) + [("Boom", rng.choice([1, 2, 3]))]
             wrapped = "if (Boom == 1) { panic(\"stop\"); } if (Boom == 2) { return 1 % 0; } if (Boom == 3) { return Name; } " + src
+            if rng.random() < 0.5:
+                # ... the previous run ended INSIDE a user-defined function (nested in a loop)
+                wrapped = ("function boomf(b) { foreach q9 in [1] { if (b == 1) { panic(\"stop\"); } if (b == 2) { return 1 % 0; } if (b == 3) { return nosuchfn(); } } return 0; } "
+                           "z9 = boomf(Boom); " + src)
             objs = [gen.enc_struct(o1), gen.enc_struct(o2)]
             mode = rng.choice(["opt", "noopt"])
             fa = gen.struct_case(rng, wrapped, ["prepare:" + mode, "exec:0"], objs=objs)
